@@ -141,6 +141,10 @@ func flowModule() *module {
 		{ID: "a50warm10", Res: "a", mk: func() interface{} {
 			return &flow.Rule{ID: "a50warm", Resource: "a", Threshold: 50, TokenCalculateStrategy: flow.WarmUp, WarmUpPeriodSec: 1, WarmUpColdFactor: 10}
 		}},
+		// a memory-adaptive throttling rule (it needs no statistic of its own): 5 tokens per second, no queueing
+		{ID: "aMemQueue", Res: "a", mk: func() interface{} {
+			return &flow.Rule{ID: "mq", Resource: "a", TokenCalculateStrategy: flow.MemoryAdaptive, ControlBehavior: flow.Throttling, LowMemUsageThreshold: 5, HighMemUsageThreshold: 4, MemLowWaterMarkBytes: 1024, MemHighWaterMarkBytes: 2048}
+		}},
 	}
 	conv := func(rs []interface{}) []*flow.Rule {
 		out := make([]*flow.Rule, 0, len(rs))
@@ -156,10 +160,10 @@ func flowModule() *module {
 		}
 		return out
 	}
-	thr := map[string]float64{"a5": 5, "a0": 0, "a50warm": 50, "b0": 0, "aMem": 5, "aMemHi": 5, "aMemLo": 5, "a5queue": 5, "a5interval": 5, "a5ref": 5, "a50warm10": 5} // a50warm10: cold start, 50/10
+	thr := map[string]float64{"a5": 5, "a0": 0, "a50warm": 50, "b0": 0, "aMem": 5, "aMemHi": 5, "aMemLo": 5, "a5queue": 5, "a5interval": 5, "a5ref": 5, "a50warm10": 5, "aMemQueue": 5} // a50warm10: cold start, 50/10
 	return &module{
 		Name: "flow", Specs: specs, Resources: []string{"a", "b"},
-		Lists:    append(listsFor([]int{0, 1, 2}, 3, []int{4, 5, 6, 7, 8, 9, 10, 11}, 12), []int{13}, []int{14}, []int{15}, []int{16}, []int{17}, []int{18}, []int{19}, []int{2}),
+		Lists:    append(listsFor([]int{0, 1, 2}, 3, []int{4, 5, 6, 7, 8, 9, 10, 11}, 12), []int{13}, []int{14}, []int{15}, []int{16}, []int{17}, []int{18}, []int{19}, []int{2}, []int{20}),
 		Load:     func(rs []interface{}) (bool, error) { return flow.LoadRules(conv(rs)) },
 		LoadRes:  func(res string, rs []interface{}) (bool, error) { return flow.LoadRulesOfResource(res, conv(rs)) },
 		Clear:    flow.ClearRules,
@@ -184,8 +188,37 @@ func flowModule() *module {
 					}
 					if float64(b) > t {
 						w = "blocked-by:" + id
+						if id == "aMemQueue" {
+							w = "blocked:" + base.BlockTypeFlow.String() // a throttling rule refuses an oversize batch without naming itself
+						}
 						break
 					}
+				}
+				want += w + ","
+			}
+			// two requests of 3 tokens at one instant: the second one is judged against what the first one left in the
+			// rule's statistic (a rule bound to a statistic that records nothing would admit both)
+			env.Clock.AdvanceMs(11000)
+			seen := float64(0)
+			for k := 0; k < 2; k++ {
+				e, blk := sentinel.Entry(res, sentinel.WithBatchCount(3))
+				if e != nil {
+					e.Exit()
+				}
+				got += trig(blk, func(r base.SentinelRule) string { return label(specs, allFields(r.(*flow.Rule)), r.(*flow.Rule).ID) }) + ","
+				w := "pass"
+				for _, id := range enforced {
+					t := thr[id]
+					if id == "a50warm" {
+						t = 50.0 / 3
+					}
+					if seen+3 > t {
+						w = "blocked-by:" + id
+						break
+					}
+				}
+				if w == "pass" {
+					seen += 3
 				}
 				want += w + ","
 			}
